@@ -19,7 +19,8 @@ import sys
 import framework
 import tlc
 
-sys.path.insert(0, "/repo")
+import paths  # noqa: E402
+sys.path.insert(0, paths.REPO)
 
 NONE = {"t": "none", "b": False, "i": 0, "s": ""}
 
